@@ -269,14 +269,15 @@ SPECS["C03"] = {
     "gen_groups": [
         {"program": "c02_basic", "pkg": "c02basic", "entries": [
             {"name": "VerifC03_Echo", "quick": {"params": [0], "bound": 1}, "thorough": {"params": [0], "bound": 2, "flags": ["-par", "4"]},
-             "expect_reach": ["end", "value", "declared", "undeclared", "app-exception"]},
+             "expect_reach": ["end", "value", "declared", "undeclared", "app-exception", "nil-value"]},
+            {"name": "VerifC03_VoidThrows", "quick": {"params": [0], "bound": 1}, "thorough": {"params": [0], "bound": 2}, "expect_reach": ["end", "void-ok", "void-declared-1", "void-declared-2"]},
             {"name": "VerifC03_PingFire", "quick": {"params": [0, 1], "bound": 1}, "thorough": {"params": [0, 1], "bound": 2}, "expect_reach": ["end", "ping", "fire"]},
         ]},
         {"program": "c02_nested", "includes": ["c02_base"], "pkg": "c02nested", "entries": [
             {"name": "VerifC03_Inherited", "quick": {"params": [0], "bound": 1}, "thorough": {"params": [0], "bound": 1}, "expect_reach": ["end", "denied", "built"]},
         ]},
     ],
-    "level_text": "Bounded symbolic model checking of an end-to-end call through GENERATED code: for the catalogue services Basic (echo with struct argument/result and a declared exception, void ping, oneway fire) and Child extends c02_base.Parent (inherited origin from an include; build with a typedef'd list of an included struct, an included enum and an included exception) the real compiler emits Go, and gose executes generated F<S>Client method -> Method.Invoke -> FStandardClient.Call/Oneway/prepareMessage/processReply -> loop-back FTransport -> FBaseProcessor.Process -> generated processor function -> Method.Invoke -> handler and back, with the real TBinaryProtocol and header code: every argument (scalars, optional presence, short strings, enum values incl. undeclared numbers) and the handler outcome (value / declared exception with symbolic fields / undeclared error / TApplicationException of any type 0..100) symbolic: the handler is invoked exactly once with equal arguments and the caller observes exactly the outcome (value, the declared exception with equal fields, INTERNAL_ERROR, the handler's own application type); a successful oneway produces no reply; the inherited method behaves identically. Outside: TCP/HTTP/NATS plumbing (byte transport covered by C05/C12/C13/C14), compact and JSON protocols, programs beyond the catalogue.",
+    "level_text": "Bounded symbolic model checking of an end-to-end call through GENERATED code: for the catalogue services Basic (echo with struct argument/result and a declared exception, also returning (nil, nil); void ping; void remove with two declared exceptions; oneway fire) and Child extends c02_base.Parent (inherited origin from an include; build with a typedef'd list of an included struct, an included enum and an included exception) the real compiler emits Go, and gose executes generated F<S>Client method -> Method.Invoke -> FStandardClient.Call/Oneway/prepareMessage/processReply -> loop-back FTransport -> FBaseProcessor.Process -> generated processor function -> Method.Invoke -> handler and back, with the real TBinaryProtocol and header code: every argument (scalars, optional presence, short strings, enum values incl. undeclared numbers) and the handler outcome (value / declared exception with symbolic fields / undeclared error / TApplicationException of any type 0..100) symbolic: the handler is invoked exactly once with equal arguments and the caller observes exactly the outcome (value, the declared exception with equal fields, INTERNAL_ERROR, the handler's own application type); a successful oneway produces no reply; the inherited method behaves identically. Outside: TCP/HTTP/NATS plumbing (byte transport covered by C05/C12/C13/C14), compact and JSON protocols, programs beyond the catalogue.",
     "level_note": "Trusted: go/ssa, gose interpreter (path witnesses re-run natively inside the generated package), z3; reflect is an engine boundary.",
     "bounds": {"quick": "strings 0..1 bytes", "thorough": "strings 0..2 bytes"},
     "assumptions": [],
